@@ -1,4 +1,24 @@
 DST = "deterministic simulation with fault injection"
+add("C01", ["block_lockstep"], "exploration",
+    "Seeded search over (cartridge, basic block, CPU/RAM/device state, cache-age schedule): the block is run as translated code on one replica of the real core and by the interpreter on an identical replica; registers, status, every RAM region, I/O registers, hidden device state and the bus-write trace (order and values) are compared, and the worker process must survive. Run index i forces encoding i mod 500, so every defined encoding is exercised equally. Sampling, not proof.",
+    "The interpreter is the reference by the property's own wording; a common-mode decoder error is invisible here (C05/C06, not applicable under this technique). Known finding: a block in the switchable bank that remaps its own bank.",
+    DST + ": replica lockstep (translated vs interpreted) under cache-age, arena-placement, bank-placement schedules; process death observed in workers", "DESIGN.md section 4 C01")
+add("C02", ["block_lockstep"], "exploration",
+    "Same runs as C01 with the cycles oracle only: machine cycles reported by translated code vs interpreter per block (engine level), and last_block_cycle_length plus DIV/LY/STAT/DMA progress after Core::run_code_block (device time seen). All conditional terminators x all 16 flag states are reached every quick batch (reported as cond_outcomes).",
+    "Interpreter/decoder cycle table is the reference (its own correctness is C06, not applicable here). Cases in which the block remapped its own bank are not compared (the engines did not run the same instructions).",
+    DST + ": replica lockstep, cycle oracle", "DESIGN.md section 4 C02")
+add("C03", ["cache_bank_history"], "exploration",
+    "Seeded histories over multi-bank MBC1/MBC3/ROM-only cartridges whose banks hold different code at the same addresses: trampoline dispatches (guest-code bank switches), direct bank-register writes, flushes, IF pokes, joypad events, small-arena faults; three replicas of the real core (warm cache / cache emptied before every step / interpreter-only build) stepped in lockstep with full-state comparison after every step, plus a white-box check that every warm-cache hit is a translation of the bytes mapped now.",
+    "Known finding: block in the switchable window that remaps its own bank (excluded from the generator except at a low rate, reported under its own signature).",
+    DST + ": three-replica lockstep under bank-switch histories with cache flush / arena-capacity faults", "DESIGN.md section 4 C03")
+add("C11", ["bus_crash"], "fault_enumeration",
+    "All 504 (type, ROM-size code, RAM-size code) header combinations round-robin, each with seeded bank-register histories and boundary-biased byte/word reads and writes, fetch views and a stack/word-access program in both engines, executed in worker subprocesses built with overflow checks; any worker death or panic is a violation.",
+    "Register histories and addresses are sampled, configurations are enumerated. Files are as large as declared (shorter files: C19).",
+    DST + ": configuration enumeration x seeded access histories; fault = process death observed by the driver", "DESIGN.md section 4 C11")
+add("C12", ["mbc_history"], "exploration",
+    "All 504 header combinations round-robin x seeded histories of writes to 0x0000-0x7FFF; after every write the visible ROM bank (three probe addresses + fetch view + executing the bank's stub in both engines) and RAM bank are compared with an independent RefMbc model.",
+    "Trusts RefMbc (written from the statement: 5/7-bit masks, 0->1 in both MBC1 modes, upper bits/mode select, reduction modulo actual size). RAM-enable gating and MBC3 RTC selection are not asserted.",
+    DST + ": register-write histories vs reference controller model", "DESIGN.md section 4 C12")
 add("C13", ["timer_batches"], "exploration",
     "Seeded search over timed histories of timer register writes and elapsed-time gaps; the real Timer runs under three batch partitions of the same time and is compared after every operation with a per-clock reference model and with the other partitions. Sampling, not proof; evidence reports TAC-write transition cells reached.",
     "Trusts the RefTimer model (per-clock divider, falling-edge rule from the statement); DIV-write edge left open (spec set).",
